@@ -188,6 +188,8 @@ func chainDiffExplore(c *ev.Ctx, cfg *chainDiffCfg) {
 						switch in.phase {
 						case "pre":
 							b.OffChain = append(append([]Probe{}, b.OffChain...), in.probe)
+						case "tx0":
+							b.AfterTx0 = append(append([]Probe{}, b.AfterTx0...), in.probe)
 						case "mid":
 							b.MidChain = append(append([]Probe{}, b.MidChain...), in.probe)
 						case "post":
@@ -317,6 +319,12 @@ func init() {
 				cfg.Depth, cfg.MaxIns = 3, 2
 			}
 			chainDiffExplore(c, cfg)
+			// queries at older heights followed by transactions on the queried object (state changes follow reads)
+			editApp := blk(tx("app_stake", "P1", "value", "3000000", "chains", "0001+0002"))
+			editNode := blk(tx("node_stake", "N2", "node", "N2", "value", "3000000", "output", "N2", "chains", "0002"))
+			qmenu := []BlockSpec{editApp, blk(tx("app_unstake", "P1")), editNode, blk(tx("node_unstake", "N2")), {}}
+			qcfg := &chainDiffCfg{Name: "readonly-queries", Env: defaultEnv(), Menu: qmenu, Depth: cfg.Depth, Probes: c13Probes(), Phases: []string{"pre", "mid", "post"}, MaxIns: 1}
+			chainDiffExplore(c, qcfg)
 			getPool().Close()
 		},
 		Replay: diffReplayFn,
@@ -357,6 +365,13 @@ func init() {
 			if c.Tier == "thorough" {
 				smenu = append(smenu, blk(tx("node_unjail", "N1", "node", "N1", "as", "N1")), blk(tx("node_unstake", "N2")), blk(tx("app_stake", "P1", "value", "2000000", "chains", "0002")))
 			}
+			// calls that arrive while a block is being executed (between two DeliverTx of the same block)
+			transfer := tx("app_stake", "P1", "app", "NEW", "value", "0", "chains", "")
+			imenu := []BlockSpec{blk(transfer, tx("app_unstake", "P1")), blk(tx("app_unstake", "P1"), tx("app_stake", "P1", "value", "3000000", "chains", "0001")),
+				blk(tx("node_unstake", "N2"), tx("node_stake", "N2", "node", "N2", "value", "3000000", "output", "N2", "chains", "0002")), blk(tx("app_stake", "P1", "value", "3000000", "chains", "0002"), tx("app_unstake", "P1")), {}}
+			iprobes := []Probe{{Kind: "q_app", Args: map[string]string{"height": "0"}}, {Kind: "q_app", Args: map[string]string{"height": "-1"}}, {Kind: "q_node2", Args: map[string]string{"height": "0"}}, {Kind: "q_apps", Args: map[string]string{"height": "0"}}}
+			icfg := &chainDiffCfg{Name: "offchain-inblock", Env: defaultEnv(), Menu: imenu, Depth: 2, Probes: iprobes, Phases: []string{"pre", "tx0", "mid", "post"}, MaxIns: 1}
+			chainDiffExplore(c, icfg)
 			sprobes := []Probe{{Kind: "dispatch", Args: map[string]string{"app": "P1", "chain": "0001"}}, {Kind: "relay", Args: map[string]string{"entropy": "5"}}}
 			scfg := &chainDiffCfg{Name: "offchain-sessions", Env: env, Menu: smenu, Depth: 4, Probes: sprobes, Phases: []string{"pre", "post"}, MaxIns: 1}
 			chainDiffExplore(c, scfg)
